@@ -625,12 +625,40 @@ func Generate(t *rapid.T, noMacros bool) Generated {
 		m := m
 		blocks = append(blocks, func() { m.render(&b, "") })
 	}
+	// symbol groups: several method bodies whose first use of the same, never seen symbol literals is
+	// in bodies that are checked and compiled concurrently; at run time the symbols of the bodies of a
+	// group must be identical (interning is a bijection whatever the schedule)
+	symGroups := 0
+	if rapid.IntRange(0, 2).Draw(t, "symfam") > 0 {
+		symGroups = rapid.IntRange(4, 40).Draw(t, "symgroups")
+	}
+	tag := rapid.StringMatching("[a-z]{9}").Draw(t, "symtag")
+	for gi := 0; gi < symGroups; gi++ {
+		gi := gi
+		for mi := 0; mi < 3; mi++ {
+			mi := mi
+			blocks = append(blocks, func() {
+				var syms []string
+				for k := 0; k < 6; k++ {
+					syms = append(syms, fmt.Sprintf(":%s_%d_%d", tag, gi, (k+mi*2)%6)) // same six symbols, other first-use order
+				}
+				fmt.Fprintf(&b, "def symq%d_%d: ArrayTuple[Symbol]\n  %%[%s]\nend\n", gi, mi, strings.Join(syms, ", "))
+			})
+		}
+	}
+	if symGroups > 0 {
+		g.features["symbol_groups"] = true
+	}
 	order := rapid.Permutation(seq(len(blocks))).Draw(t, "text_order")
 	for _, i := range order {
 		blocks[i]()
 	}
 	b.WriteString(constCall)
 	b.WriteString("\n")
+	for gi := 0; gi < symGroups; gi++ {
+		// element-wise: the three bodies list the symbols rotated by two positions
+		fmt.Fprintf(&b, "println(\"sym%d \" + (symq%d_0()[2] == symq%d_1()[0] && symq%d_1()[2] == symq%d_2()[0] && symq%d_0()[0] == symq%d_2()[2]).inspect)\n", gi, gi, gi, gi, gi, gi, gi)
+	}
 	// main: call every method once
 	for _, m := range g.all {
 		if m.kind == "mix" && !g.callableFrom(m, &method{idx: 1 << 30}) {
@@ -641,7 +669,7 @@ func Generate(t *rapid.T, noMacros bool) Generated {
 	if constCall != "" {
 		b.WriteString("println(KM)\n")
 	}
-	out := Generated{Src: b.String(), Bodies: len(g.all) + len(g.classes)}
+	out := Generated{Src: b.String(), Bodies: len(g.all) + len(g.classes) + 3*symGroups}
 	for _, m := range g.all {
 		out.ErrStmts += m.errs
 	}
